@@ -38,14 +38,15 @@ type Unit struct {
 	History  []int  `json:"history,omitempty"`  // replay: execute exactly this history (op >= 0: Malloc(Sizes[op]); op < 0: Free(live[-op-1]))
 
 	// defrag family
-	Classes [][]int `json:"classes,omitempty"` // per class: in-class sizes to cycle through
-	Pages   int     `json:"pages,omitempty"`   // pages filled per class
-	Partial bool    `json:"partial,omitempty"` // plus half a page (current page not exhausted)
-	Order   int     `json:"order,omitempty"`   // free order (OrdAsc…)
-	Rest    int     `json:"rest,omitempty"`    // pattern of the non-distinguished pages
-	Dist    []int   `json:"dist,omitempty"`    // indices of the distinguished pages
-	NPat    int     `json:"npat,omitempty"`    // patterns per distinguished page (5)
-	Assign  []int   `json:"assign,omitempty"`  // replay: exactly this assignment
+	Classes  [][]int `json:"classes,omitempty"`  // per class: in-class sizes to cycle through
+	Pages    int     `json:"pages,omitempty"`    // pages filled per class
+	Partial  bool    `json:"partial,omitempty"`  // plus half a page (current page not exhausted)
+	Order    int     `json:"order,omitempty"`    // free order (OrdAsc…)
+	Rest     int     `json:"rest,omitempty"`     // pattern of the non-distinguished pages
+	Dist     []int   `json:"dist,omitempty"`     // indices of the distinguished pages
+	NPat     int     `json:"npat,omitempty"`     // patterns per distinguished page (5)
+	Assign   []int   `json:"assign,omitempty"`   // replay: exactly this assignment
+	Remalloc int     `json:"remalloc,omitempty"` // allocations made per class between fragmenting and defragmenting (the last operation before defrag is then a Malloc served from the free list)
 
 	// integ / stress
 	Variant int `json:"variant,omitempty"`
